@@ -515,6 +515,40 @@ where
     })
 }
 
+/// The writer's documented limit: a rank so large that the dictionary does not fit a u16 length.
+fn case_write_rank(out: &mut Out, rank: usize) {
+    let shape = vec![1usize; rank];
+    let t = Tensor::<i8>::from_data(&shape, vec![7i8]);
+    let req = format!("write i8 {} 07", dims(&shape));
+    let mut buf = Vec::new();
+    let (r, _) = guarded(|| npy::write(&mut buf, t.view()));
+    let mut fail = None;
+    let ans = match r {
+        Ok(Ok(())) => {
+            match npy::read(&buf[..]) {
+                Ok(v) => {
+                    let (dt, s, b, _) = value_canon(&v);
+                    if dt != DataType::Int8 || s != shape || b != [7u8] {
+                        fail = Some("round trip differs".to_string());
+                    }
+                }
+                Err(e) => fail = Some(format!("read of written file failed: {e}")),
+            }
+            format!("ok {}", hex(&buf))
+        }
+        Ok(Err(e)) => {
+            fail = Some(format!("write of a valid rank-{rank} tensor failed: {e}"));
+            err_class(&e)
+        }
+        Err(m) => {
+            fail = Some("write panicked".into());
+            format!("panic {m}")
+        }
+    };
+    out.bucket("write:rank-boundary");
+    out.case(&req, &ans, fail.as_deref(), true);
+}
+
 fn case_read(out: &mut Out, file: &[u8], bucket: &str, must_err: bool) {
     let req = format!("read {}", hex(file));
     let (r, big) = guarded(|| npy::read(file));
@@ -1173,6 +1207,10 @@ fn run(args: &Args) {
     }
     for rank in [21810usize, 21820, 21824, 21825, 21826, 21827, 21830] {
         case_hdr(&mut out, DataType::Int8, &vec![1; rank], "len-boundary");
+    }
+
+    for rank in [21824usize, 21825, 21826, 21846] {
+        case_write_rank(&mut out, rank);
     }
 
     // (B) write + round trip over all dtypes and view kinds
